@@ -58,6 +58,15 @@ def texts_for(lang):
             if t and len(t) > 3:
                 simpl.append(t)
     simpl = simpl[:6]
+    # simplification keys of any length whose replacement has more tokens than the key (a word that
+    # becomes '12:00'): the alignment of original and simplified tokens is what is exercised
+    expanding = []
+    for d in (info.get("simplifications") or []):
+        for k, v in d.items():
+            t = instantiate(k)
+            if t and "\\" not in v and len(re.findall(r"\w+|[^\w\s]", v)) > len(t.split()):
+                expanding.append(t)
+    expanding = expanding[:8]
     out = [
         "%s 4 %s 2015" % (w, m), "4 %s 2015" % m, "%s" % m, "%s" % w, "4.3.2015 - 5.3.2015",
         "xx yy 4 %s 2015 zz, 17 %s 2019." % (m, m2), "(4 %s 2015)" % m, "4 %s 2015\n17 %s" % (m, m2),
@@ -81,6 +90,20 @@ def texts_for(lang):
         out += [c, "xx %s yy 4 %s" % (c, m)]
     for s in simpl:
         out += ["xx %s yy" % s, "%s 4 %s 2015" % (s, m), "posted %s by John" % s]
+    # vocabulary words spelled with an apostrophe, written with the typographic look-alikes that
+    # sanitize_date folds for parse(): whatever search reports must still be a piece of the text
+    apo = []
+    for k, v in info.items():
+        ws = v if isinstance(v, list) else ([w for ws_ in v.values() for w in ws_] if isinstance(v, dict) and k == "relative-type" else [])
+        for w_ in ws:
+            if isinstance(w_, str) and "'" in w_ and w_ not in apo:
+                apo.append(w_)
+    for w_ in apo[:6]:
+        for ch in ("\u2019", "\u02bc"):
+            c = w_.replace("'", ch)
+            out += ["xx %s yy 10:30" % c, "%s 4 %s 2015" % (c, m), c.title()]
+    for s in expanding:
+        out += [s, '"%s"' % s, 'xx "%s" yy' % s, "(%s)" % s, "4 %s 2015 %s." % (m, s)]
     return out
 
 
